@@ -187,10 +187,17 @@ class SimSocket(socket.socket):
         w = self._w
         p = self._pipe
         self.recv_calls += 1
-        if bufsize is None or bufsize < 0:
-            e_ = ValueError("negative buffersize in recv") if bufsize is not None else TypeError(
-                "'NoneType' object cannot be interpreted as an integer")
-            e_.sim_injected = True          # what a real socket answers: attributable to the caller, not to the harness
+        # argument checking as a real socket does it: the answer is attributable to the caller, not to the harness
+        try:
+            import operator as _operator
+            bufsize = _operator.index(bufsize)
+            flags = _operator.index(flags)
+        except TypeError as e_:
+            e_.sim_injected = True
+            raise
+        if bufsize < 0:
+            e_ = ValueError("negative buffersize in recv")
+            e_.sim_injected = True
             raise e_
         peek = bool(flags & socket.MSG_PEEK)
         waitall = bool(flags & socket.MSG_WAITALL)
@@ -487,28 +494,32 @@ class ClockSeam:
     def __init__(self, module, clock):
         self.module = module
         self.clock = clock
-        self.saved = {}
+        self.saved = []              # (module dict, name, original)
         self.installed = False
 
     def __enter__(self):
+        import sys as _sys
         import time as _real_time
         import types as _types
-        d = self.module.__dict__
-        if isinstance(d.get("time"), _types.ModuleType) and d["time"] is _real_time:
-            self.saved["time"] = d["time"]
-            d["time"] = self.clock
-            self.installed = True
-        for f in self._FUNCS:
-            if f == "time":
-                continue
-            if d.get(f) is getattr(_real_time, f, object()):
-                self.saved[f] = d[f]
-                d[f] = getattr(self.clock, f)
+        pre = self.module.__name__ + "."
+        mods = [self.module] + [m for n, m in sorted(_sys.modules.items()) if n.startswith(pre) and isinstance(m, _types.ModuleType)]
+        for m in mods:               # the module itself and, if it is a package, its loaded submodules
+            d = m.__dict__
+            if isinstance(d.get("time"), _types.ModuleType) and d["time"] is _real_time:
+                self.saved.append((d, "time", d["time"]))
+                d["time"] = self.clock
                 self.installed = True
+            for f in self._FUNCS:
+                if f == "time":
+                    continue
+                if d.get(f) is getattr(_real_time, f, object()):
+                    self.saved.append((d, f, d[f]))
+                    d[f] = getattr(self.clock, f)
+                    self.installed = True
         return self
 
     def __exit__(self, *exc):
-        for k, v in self.saved.items():
-            self.module.__dict__[k] = v
-        self.saved = {}
+        for d, k, v in reversed(self.saved):
+            d[k] = v
+        self.saved = []
         return False
